@@ -135,6 +135,20 @@ def gen_case(rng, max_cards=40, audit_types=None, allow_style_off=True, max_roun
         key = "votes" if not polling else "ballot"
         if tgt and not any(cid in c[key] for c in tgt):
             tgt[0][key][cid] = W.gen_votes(rng, contests[cid], strength=strength)
+    # a lopsided pooled batch now and then: everybody in it votes for the last-listed candidate except one card for the
+    # first - the extreme overstatement values ONEAudit can produce (a card far from its batch mean)
+    if audit_type == W.ONEAUDIT and pooled_batches and rng.chance(0.3):
+        tb = rng.pick(sorted(pooled_batches))
+        label = f"{tb[0]}-{tb[1]}"
+        members = [cv for cv in cvrs if cv["tally_pool"] == label]
+        for cid in cids:
+            cs_ = contests[cid]
+            if cs_["choice_function"] not in (W.PLURALITY, W.APPROVAL):
+                continue
+            holders = [cv for cv in members if cid in cv["votes"]]
+            if len(holders) >= 3:
+                for j, cv in enumerate(holders):
+                    cv["votes"][cid] = {cs_["candidates"][0]: 1} if j == 0 else {cs_["candidates"][-1]: 1}
     # reported winners are what the CVRs (or, for polling, the ballots) say
     recs = [c["votes"] for c in cvrs] if not polling else [c["ballot"] for c in cards]
     for cid in cids:
@@ -163,7 +177,10 @@ def gen_case(rng, max_cards=40, audit_types=None, allow_style_off=True, max_roun
                 contests[cid]["cards"] = listing + extra
         else:
             contests[cid]["cards"] = max_cards_bound
+    corder = list(cids)
+    rng.shuffle(corder)
     world = {"use_style": use_style, "max_cards": max_cards_bound, "contests": contests, "audit_type": audit_type,
+             "contest_order": corder, "omit_empty_kwargs": rng.chance(0.5),
              "seed": rng.getrandbits(64), "sim_seed": rng.getrandbits(31)}
     # ---- manual records (auditors' fault plan), per real card
     mvr = {}
@@ -214,13 +231,15 @@ def gen_case(rng, max_cards=40, audit_types=None, allow_style_off=True, max_roun
         variant = variant_mode if variant_mode != "mixed" else rng.pick(["redraw", "continue"])
         rounds.append({"frac": dict(frac), "variant": "redraw" if r == 0 else variant,
                        "size_from_estimate": bool(r > 0 and rng.chance(0.25)),
+                       "refresh": bool(r > 0 and rng.chance(0.2)),
                        "rebuild": bool(r > 0 and variant != "continue" and rng.chance(0.15)),
                        "shuffle": rng.getrandbits(32)})
     return {
         "world": world, "cvrs": cvrs, "cards": [{k: c[k] for k in ("id", "tab", "batch", "pos")} for c in cards],
         "ballots": {c["id"]: c["ballot"] for c in cards} if polling else None,
         "batches": batches, "lost": lost, "mvr": mvr, "phantom_label": phantom_label,
-        "numbering": {"mode": rng.pick(["sha256", "sched", "sched", "rank"]), "seed": rng.getrandbits(64)},
+        "numbering": {"mode": rng.pick(["sha256", "sched", "sched", "rank", "near"]), "seed": rng.getrandbits(64)},
+        "mvr_via_from_dict": rng.chance(0.4), "initial_estimate": rng.chance(0.3),
         "early_margins": rng.chance(0.4),
         "tickets": tickets, "phantom_tickets": phantom_tickets,
         "rounds": rounds, "fault_free": fault_free,
